@@ -406,7 +406,7 @@ def r4_regeneration_source(repo=None):
     mm, (rfmt, rnode), _ = c02.reader_rf_format(repo)
     args = rnode.right.elts if isinstance(rnode.right, ast.Tuple) else [rnode.right]
     rb = {i: 3 for i, a in enumerate(args) if isinstance(a, ast.BinOp) and isinstance(a.op, ast.Mod)
-          and pyfront.const(a.right) == 1000}
+          and pyfront.int_const(a.right, mm) == 1000}
     rre, _ = rx.printf_to_regex(rfmt, rb)
     sp = rx.Space({"G": rx.glob_to_regex(gl), "RF": rre, "TMP": r"tmp\."}, texts=["tmp.rf@.h5"])
     ok, w = sp["RF"].subset_of(sp["G"])
@@ -715,12 +715,12 @@ def r7_rows_start_inside_the_file(repo=None):
             if a is fill:
                 break
             if a.kind in ("IfStmt", "ConditionalOperator"):
-                for c in a.children[0].walk():
+                for c in cbool.comparison_nodes(a.children[0]):
                     if c.kind == "BinaryOperator" and c.opcode in ("<", ">", "<=", ">=", "==", "!="):
                         o = classify(c)
                         if o == 0:
                             continue
-                        ta, tb = cbool._text(c.children[0].strip(casts=True), {}), cbool._text(c.children[1].strip(casts=True), {})
+                        ta, tb = cbool.atom_text(c.children[0].strip(casts=True)), cbool.atom_text(c.children[1].strip(casts=True))
                         if c.opcode in (">", "<="):
                             sem["%s>%s" % (ta, tb)] = "gt" if o == 1 else "lt"      # atom lhs>rhs
                         elif c.opcode in ("<", ">="):
@@ -921,7 +921,7 @@ def r10_later_rows_start_after_the_first_sample(repo=None):
         if cl is None:
             return None
         x, y, o = cl
-        ta, tb = cbool._text(c.children[0].strip(casts=True), {}), cbool._text(c.children[1].strip(casts=True), {})
+        ta, tb = cbool.atom_text(c.children[0].strip(casts=True)), cbool.atom_text(c.children[1].strip(casts=True))
         hi, lo = (x, y) if o == 1 else (y, x)          # lhs > rhs  <=>  hi > lo
         if c.opcode in (">", "<="):
             return "%s>%s" % (ta, tb), ("gt", hi, lo)
@@ -964,7 +964,7 @@ def r10_later_rows_start_after_the_first_sample(repo=None):
             if a is fill:
                 break
             if a.kind in ("IfStmt", "ConditionalOperator"):
-                for c in a.children[0].walk():
+                for c in cbool.comparison_nodes(a.children[0]):
                     if c.kind == "BinaryOperator" and c.opcode in ("<", ">", "<=", ">=", "==", "!="):
                         at = atom_of(c)
                         if at:
@@ -1016,11 +1016,18 @@ def r11_new_index_starts_at_offset_zero(repo=None):
     F = "digital_rf_write_rf_data_index"
     fn = tu.fn(F)
     g = _cfg.build_c(fn)
+    # (the field may be read through a local: `const uint64_t already = obj->dataset_index;` hoisted out of the loop)
+    holders = {d.name for d in fn.find("VarDecl") if d.children and any(x.kind == "MemberExpr" and x.name == "dataset_index" for x in d.children[-1].walk())}
+    holders |= {path for path, node, rhs, kind in clib.stores(fn) if path and re.match(r"^\w+$", path) and rhs is not None
+                and any(x.kind == "MemberExpr" and x.name == "dataset_index" for x in rhs.walk())}
+
+    def reads_dataset_index(e):
+        return any((x.kind == "MemberExpr" and x.name == "dataset_index") or (x.kind == "DeclRefExpr" and x.path() in holders) for x in e.walk())
     rebase = []
     for path, node, rhs, kind in clib.stores(fn):
         # `arr[2*i + 1] += obj->dataset_index` or, walking a pointer over the rows, `*p += obj->dataset_index`
         if path and ("[" in path or path.startswith("*")) and not path.startswith(clib.OBJ) and "->" not in path and kind in ("+=", "=") \
-                and rhs is not None and any(x.kind == "MemberExpr" and x.name == "dataset_index" for x in rhs.walk()):
+                and rhs is not None and reads_dataset_index(rhs):
             nd = clib.node_of(g, node)
             if nd is not None:
                 rebase.append((nd, node))
